@@ -24,6 +24,7 @@ VERIF = os.path.dirname(os.path.dirname(os.path.abspath(__file__)))
 NWORK = int(os.environ.get("VERIF_JOBS", "16"))
 COLLECT = bool(os.environ.get("VERIF_COLLECT"))
 SHRINK_CALLS = int(os.environ.get("VERIF_SHRINK_CALLS", "80"))
+SCALE = float(os.environ.get("VERIF_SCALE", "1") or 1)     # development only (smoke runs of the thorough tier); registered commands never set it
 
 
 # --------------------------------------------------------------------------- subprocess helper
@@ -229,7 +230,7 @@ def _worker(args):
                 if len(st.failures) >= 3:
                     break
         else:
-            total = src.examples[tier]
+            total = max(1, int(src.examples[tier] * SCALE))
             n = max(1, total // nwork)
             _hyp(src, ctx, st, n, seed * 1000 + widx)
     except Exception:
